@@ -370,9 +370,21 @@ def r2_blocks(program, folder, rep, sites, ffl):
               construct="ffd arg2 %r" % (lay,), node=call)
     okz = False
     if sizev:
-        ds = dfl.reaching(sizev, n)
-        okz = len(ds) == 1 and dfl.sym(ds[0].value, ds[0].node) == \
-            dfl.fdiv(sz, Poly.const(4)) - 1
+        # (the field's source: a variable, or an expression written in place)
+        try:
+            sz_e = parse_expr(sizev)
+            for x_ in ast.walk(sz_e):
+                for y_ in ast.iter_child_nodes(x_):
+                    y_._parent = x_
+            got_sz = dfl.sym(sz_e, n)
+        except (AnalysisError, SyntaxError, ValueError):
+            got_sz = None
+        okz = got_sz is not None and \
+            got_sz == dfl.fdiv(sz, Poly.const(4)) - 1
+        if not okz:
+            ds = dfl.reaching(sizev, n)
+            okz = len(ds) == 1 and dfl.sym(ds[0].value, ds[0].node) == \
+                dfl.fdiv(sz, Poly.const(4)) - 1
     rep.check(okz, "C09-R3", dinst, "size field = block bytes // 4 - 1",
               construct="ffd size field", node=call)
     for b in backs:
